@@ -36,3 +36,37 @@ Example C01_wf_example :
                     (Some [1; 2; 3; 4; 5; 6])) [0; 255].
 Proof. unfold frame_wf, frame_id; cbn. repeat split; try reflexivity; try (apply le_S_n; repeat constructor).
   right. repeat split; try reflexivity. exists [1;2;3;4;5;6]. repeat split. Qed.
+
+(* ---- tie by translation (gen/SrcFrame.v, gen/SrcStreamwriter.v are regenerated from the source on
+   every run) ---- markers, the signed flag, the header offsets of both marshalTo functions, the
+   buffer that must hold the longest frame; the 24- and 48-bit helpers and IsSigned, translated
+   statement by statement, are the model's little-endian codec and flag test *)
+From Coq Require Import ZArith NArith List.
+Import ListNotations.
+From GM Require Import SrcPrelude SrcFrame SrcStreamwriter SrcFrameTie.
+Theorem C01_source_layout_constants :
+  (c_frame_V1MagicByte = 254 /\ c_frame_V2MagicByte = 253 /\ c_frame_V2FlagSigned = 1 /\
+   280 <= c_frame_bufferSize /\ c_frame_bufferSize = a_frame_Reader_Initialize_NewReaderSize /\
+   k_frame_V1Frame_marshalTo = [255; 0; 0; 254; 1; 2; 3; 4; 5; 6; 0; 2] /\
+   k_frame_V2Frame_marshalTo = [0; 253; 1; 2; 3; 4; 5; 6; 7; 10; 0; 2; 6] /\
+   d_frame_Writer_Initialize_OutComponentID = 1 /\ d_streamwriter_Writer_Initialize_ComponentID = 1)%Z.
+Proof. exact src_frame_layout. Qed.
+Print Assumptions C01_source_layout_constants.
+
+Theorem C01_source_uint24 :
+  (forall x0 x1 x2 rest v, src_frame_uint24Encode (x0 :: x1 :: x2 :: rest) v = (Bytes.le_enc 3 v ++ rest)%list) /\
+  (forall a b c, a < 256 -> b < 256 -> c < 256 -> src_frame_uint24Decode [a; b; c] = Bytes.le_dec [a; b; c])%N.
+Proof. split; [exact src_uint24_encode|exact src_uint24_decode]. Qed.
+Print Assumptions C01_source_uint24.
+
+Theorem C01_source_uint48 :
+  (forall x0 x1 x2 x3 x4 x5 rest v,
+     src_frame_uint48Encode (x0 :: x1 :: x2 :: x3 :: x4 :: x5 :: rest) v = (Bytes.le_enc 6 v ++ rest)%list) /\
+  (forall a b c d e f, a < 256 -> b < 256 -> c < 256 -> d < 256 -> e < 256 -> f < 256 ->
+     src_frame_uint48Decode [a; b; c; d; e; f] = Bytes.le_dec [a; b; c; d; e; f])%N.
+Proof. split; [exact src_uint48_encode|exact src_uint48_decode]. Qed.
+Print Assumptions C01_source_uint48.
+
+Theorem C01_source_is_signed : forall f, src_frame_V2Frame_IsSigned (Frame.f_inc f) = Frame.is_signed f.
+Proof. exact src_is_signed. Qed.
+Print Assumptions C01_source_is_signed.
